@@ -1,7 +1,7 @@
 (* C06 - on-policy collection records what happened and bootstraps time-limit truncations.
    Only statements: every proof is [exact <lemma>], followed by Print Assumptions. *)
 From Coq Require Import ZArith QArith Qminmax List Bool.
-From SB3V Require Import Model.Script Gen.Frag_onpolicy Model.OnPolicyCollect Proofs.OnPolicyCollectProofs.
+From SB3V Require Import Lib.QUtil Model.Script Gen.Frag_onpolicy Model.OnPolicyCollect Proofs.OnPolicyCollectProofs.
 From SB3V Require Import Model.Gae Model.Pipeline Proofs.PipelineProofs.
 From SB3V Require Refuted.C06_callback_stop.
 Import ListNotations.
@@ -181,6 +181,13 @@ Theorem C06_pipeline_env_independent : forall gamma lam (cols : list (list stp))
   column e 0%Q (gae_rows gamma lam (length cols) (rows_of_cols cols T)) = gae_code gamma lam (nth e cols []).
 Proof. exact pipeline_env_independent. Qed.
 Print Assumptions C06_pipeline_env_independent.
+
+(* the list comparator used by the correspondence entry points (check_col, check_off): it accepts exactly the lists of the same length
+   whose entries are pairwise close *)
+Theorem C06_list_comparator_spec : forall rel abs ms is_,
+  qclose_all rel abs ms is_ = true <-> Forall2 (fun m i => qclose rel abs m i = true) ms is_.
+Proof. exact qclose_all_spec. Qed.
+Print Assumptions C06_list_comparator_spec.
 
 (* ---- non-vacuity ---- *)
 Definition ex_sc : script :=
